@@ -19,8 +19,10 @@ package main
 
 import (
 	"fmt"
+	"io"
 	"net/http"
 	"net/http/httptest"
+	"sync"
 	"time"
 
 	"github.com/rs/zerolog/hlog"
@@ -233,4 +235,73 @@ func nestedProxy(c *Ctx) {
 		nestedCase(c, all[r.Intn(len(all))], layers, "nested-random")
 	}
 	c.Res.ExtraCoverage["nested_random_cases"] = nrand
+}
+
+// the same on a real net/http server: the outermost AccessHandler against what the client received, the inner
+// one against the calls made inside it (a net/http writer accepts everything it is given)
+func realServerNested(c *Ctx) {
+	var mu sync.Mutex
+	var pre, in, post []opT
+	var outer, inner reportT
+	cur := func() (p, i, q []opT) { mu.Lock(); defer mu.Unlock(); return pre, in, post }
+	route := http.HandlerFunc(func(w http.ResponseWriter, r *http.Request) { _, i, _ := cur(); behave(w, i, nil) })
+	innerH := hlog.AccessHandler(func(r *http.Request, s, z int, d time.Duration) { mu.Lock(); inner = reportT{s, z}; mu.Unlock() })(route)
+	mw := http.HandlerFunc(func(w http.ResponseWriter, r *http.Request) {
+		p, _, q := cur()
+		behave(w, p, nil)
+		innerH.ServeHTTP(w, r)
+		behave(w, q, nil)
+	})
+	h := hlog.AccessHandler(func(r *http.Request, s, z int, d time.Duration) { mu.Lock(); outer = reportT{s, z}; mu.Unlock() })(mw)
+	srv := httptest.NewServer(h)
+	defer srv.Close()
+	full := capsT{CN: true, FL: true, HJ: true, RF: true}
+	w3 := opT{Kind: "W", Len: 3, Out: outcome{3, false}}
+	rf5 := opT{Kind: "RF", Len: 5, Out: outcome{5, false}}
+	pres := [][]opT{nil, {{Kind: "WH", Code: 202}}, {w3}, {{Kind: "WH", Code: 404}, rf5}}
+	ins := [][]opT{nil, {w3}, {{Kind: "WH", Code: 201}, w3}, {rf5, w3}, {{Kind: "WH", Code: 201}}}
+	posts := [][]opT{nil, {w3}}
+	n := 0
+	for _, p := range pres {
+		for _, i := range ins {
+			for _, q := range posts {
+				mu.Lock()
+				pre, in, post = p, i, q
+				mu.Unlock()
+				resp, err := http.Get(srv.URL)
+				if err != nil {
+					panic(err)
+				}
+				b, _ := io.ReadAll(resp.Body)
+				resp.Body.Close()
+				mu.Lock()
+				o, ir := outer, inner
+				mu.Unlock()
+				n++
+				layers := []layerT{{Pre: p, Post: q}, {Pre: i}}
+				jc := map[string]interface{}{"kind": "real-server-nested", "layers": layers, "client_status": resp.StatusCode, "client_body": len(b), "reports": []reportT{o, ir}}
+				if len(p)+len(i)+len(q) == 0 {
+					// nothing was sent by any handler: net/http sends an implicit 200 when the handler returns,
+					// the property says 0 ("0 if nothing was sent")
+					if o.Status != 0 || ir.Status != 0 {
+						c.Violate(Violation{Key: "access-status", Monitor: "status-is-first-header", Desc: fmt.Sprintf("net/http server, stacked AccessHandlers, no handler sent anything: reported statuses %d (outer) and %d (inner), want 0", o.Status, ir.Status), Case: jc, Observed: []int{o.Status, ir.Status}, Expected: []int{0, 0}})
+					}
+				} else if resp.StatusCode != o.Status {
+					c.Violate(Violation{Key: "access-status-real", Monitor: "status-is-what-the-client-got", Desc: fmt.Sprintf("net/http server, stacked AccessHandlers: client received status %d, the outermost AccessHandler reported %d", resp.StatusCode, o.Status), Case: jc, Observed: o.Status, Expected: resp.StatusCode})
+				}
+				if len(b) != o.Size {
+					c.Violate(Violation{Key: "access-size-real", Monitor: "size-is-what-the-client-got", Desc: fmt.Sprintf("net/http server, stacked AccessHandlers: client received %d body bytes, the outermost AccessHandler reported %d", len(b), o.Size), Case: jc, Observed: o.Size, Expected: len(b)})
+				}
+				es, ez := specStatusSize(full, i)
+				if ir.Status != es {
+					c.Violate(Violation{Key: "access-status", Monitor: "status-is-first-header", Desc: fmt.Sprintf("net/http server, stacked AccessHandlers: the inner one reported status %d; the first WriteHeader/body write of the handler it wraps says %d", ir.Status, es), Case: jc, Observed: ir.Status, Expected: es})
+				}
+				if ir.Size != ez {
+					c.Violate(Violation{Key: "access-size", Monitor: "size-is-accepted-bytes", Desc: fmt.Sprintf("net/http server, stacked AccessHandlers: the inner one reported size %d; the handler it wraps wrote %d bytes", ir.Size, ez), Case: jc, Observed: ir.Size, Expected: ez})
+				}
+				c.Count(fmt.Sprintf("real-nested|%v|%v|%v", p, i, q), len(p) > 0 && len(i) > 0)
+			}
+		}
+	}
+	c.Res.ExtraCoverage["real_server_nested_sequences"] = n
 }
